@@ -642,6 +642,25 @@ func BackSlice(v ssa.Value, o SliceOpts) map[ssa.Value]bool {
 				for _, s := range StoresTo(t) {
 					push(s.Val)
 				}
+				// element / field initialisers of a literal: stores through &alloc[i], &alloc.f
+				if refs := t.Referrers(); refs != nil {
+					for _, ref := range *refs {
+						switch a := ref.(type) {
+						case *ssa.IndexAddr:
+							if a.X == ssa.Value(t) {
+								for _, s := range StoresTo(a) {
+									push(s.Val)
+								}
+							}
+						case *ssa.FieldAddr:
+							if a.X == ssa.Value(t) {
+								for _, s := range StoresTo(a) {
+									push(s.Val)
+								}
+							}
+						}
+					}
+				}
 			}
 		}
 	}
